@@ -15,8 +15,9 @@
      frontend/template/operator_graph.py:147  value updates that fit no operator
      ir/circuit.py:1067 + ir/abc.py:49  _verify_path / __getitem__ / __contains__ (with the hasattr fallback)
      ir/operator_graph.py:87            find_cycle -> PyRatesException
-     frontend/template/circuit.py:1389  _add_input (warns), 288 update_var (warns), 1144 get_variable_positions,
-                                        785 apply(node_values=...)
+     frontend/template/circuit.py:1389  _add_input (warns, fix D13), 288 update_var (warns),
+                                        1144 get_variable_positions (raises, fix D48), 785 apply(node_values=...)
+                                        (warns for an unknown node, fix D49)
    The outcome of a request is a `result`: Ok (something is returned), Warn (a PyRatesWarning is emitted and
    something is returned), Err with the class of the exception. *)
 From Coq Require Import List String Ascii Bool Arith.
@@ -300,22 +301,39 @@ Definition add_input (net : network) (p : path) : result :=
 Definition add_input_before_D13 (net : network) (p : path) : result := Ok.
 Definition update_var (net : network) (p : path) : result :=
   if presentb net p && Nat.eqb (List.length p) 3 then Ok else Warn.
-(* run(outputs={...}) -> get_variable_positions (circuit.py:1163-1187): an output whose nodes are not found is
-   dropped from the maps; when nothing is left the DataFrame constructor raises ValueError *)
+(* run(outputs={...}) -> get_variable_positions (circuit.py:1163-1200, after fix D48): an output whose nodes are not
+   found raises PyRatesException *)
 Definition resolve_outputs (net : network) (outs : list path) : result :=
+  if forallb (fun p => presentb net p && Nat.eqb (List.length p) 3) outs then Ok else Err EPyRates.
+(* before D48 the key was dropped from the maps; when nothing was left the DataFrame constructor raised ValueError *)
+Definition resolve_outputs_before_D48 (net : network) (outs : list path) : result :=
   match filter (fun p => presentb net p && Nat.eqb (List.length p) 3) outs with [] => Err EOther | _ => Ok end.
-(* apply(node_values={'n/o/v': x}) (circuit.py:785-794 -> NodeTemplate.apply -> leftovers):
-   get_nodes(n) == [] -> the value is skipped; unknown operator -> PyRatesException; unknown variable -> KeyError *)
+(* apply(node_values={'n/o/v': x}) (circuit.py:785-797 -> NodeTemplate.apply -> leftovers):
+   targets = get_nodes(n): the node itself, every node for the broadcast `all`, [] for an unknown name;
+   targets == [] -> PyRatesWarning (fix D49), the value is skipped; then node by node, in declaration order:
+   unknown operator -> PyRatesException; unknown variable -> KeyError *)
+Definition node_targets (net : network) (n : string) : list (list opd) :=
+  if String.eqb n "all" then map snd net
+  else match lookup n net with Some ops => [ops] | None => [] end.
+Definition node_value_on (o v : string) (ops : list opd) : result :=
+  match lookup o ops with
+  | None => Err EPyRates
+  | Some vars => if mem v vars then Ok else Err EOther
+  end.
+Fixpoint first_failure (rs : list result) : result :=
+  match rs with [] => Ok | r :: rest => andthen r (first_failure rest) end.
 Definition node_value (net : network) (p : path) : result :=
   match p with
   | [n; o; v] =>
-      match lookup n net with
-      | None => Ok
-      | Some ops => match lookup o ops with
-                    | None => Err EPyRates
-                    | Some vars => if mem v vars then Ok else Err EOther
-                    end
+      match node_targets net n with
+      | [] => Warn
+      | ts => first_failure (map (node_value_on o v) ts)
       end
+  | _ => Err EOther
+  end.
+Definition node_value_before_D49 (net : network) (p : path) : result :=
+  match p with
+  | [n; o; v] => first_failure (map (node_value_on o v) (node_targets net n))
   | _ => Err EOther
   end.
 
@@ -353,8 +371,24 @@ Definition CyclicSet (nodes : list string) (edges : list (string * string)) (S :
 (* =====================================================================================================
    Part 5 — one type for everything that is probed on the real code
    ===================================================================================================== *)
+(* a model with one plain `delay` edge and one `delay`+`spread` edge from two different source variables
+   (`first_plain`: the plain-delay edge is processed first).  One ring buffer in the network is enough for
+   `_uses_edge_delay_buffer`, so the guards treat it like DDiscrete; the vectorized compilation of this probe model
+   fails with KeyError today (loud, class EOther). *)
+Definition mixed_config (b : backend) (s : solver) (v : bool) (e : entry) : config := mkc b s v DDiscrete false true e.
+(* Fortran, not vectorized, fixed step, `run`: with the plain-delay edge first the generated routine happens to work,
+   in the other order (and for a purely discrete model) the first call fails (Guards.crash_call) *)
+Definition mixed_fortran_runs (b : backend) (s : solver) (first_plain : bool) (e : entry) : bool :=
+  backend_eqb b BFortran && first_plain && negb (is_integration_adaptive s) && entry_eqb e ERun.
+Definition mixed_outcome (b : backend) (s : solver) (v : bool) (first_plain : bool) (e : entry) : result :=
+  andthen (validate_backend_args (mixed_config b s v e))
+          (if v then Err EOther
+           else if mixed_fortran_runs b s first_plain e then Ok
+           else outcome (mixed_config b s v e)).
+
 Inductive probe :=
   | PConfig (c : config)
+  | PMixed (b : backend) (s : solver) (v : bool) (first_plain : bool) (e : entry)
   | PVname (v : string)
   | PVars (vars : list vardecl)
   | PEquation (declared used : list string)
@@ -370,6 +404,7 @@ Inductive probe :=
 Definition impl (p : probe) : result :=
   match p with
   | PConfig c => outcome c
+  | PMixed b s v fp e => mixed_outcome b s v fp e
   | PVname v => check_vname v
   | PVars vars => scan_vars vars false
   | PEquation d u => check_equation d u
@@ -384,29 +419,44 @@ Definition impl (p : probe) : result :=
   end.
 
 Definition Path3 (net : network) (p : path) : Prop := Present net p /\ List.length p = 3.
+(* a node-level value: `n/o/v` names a variable that is present; the broadcast `all/o/v` one that some node carries *)
+Definition NodeValueTarget (net : network) (p : path) : Prop :=
+  match p with
+  | [n; o; v] => if String.eqb n "all" then exists m, Path3 net [m; o; v] else Path3 net p
+  | _ => False
+  end.
 (* Spec: the request is supported / the model is well-formed *)
 Definition WellFormed (p : probe) : Prop :=
   match p with
   | PConfig c => Supported c
+  | PMixed b s v _ e => Supported (mixed_config b s v e)
   | PVname v => ~ Reserved v
   | PVars vars => (forall n t, In (n, t) vars -> ~ Reserved n) /\ count_outputs vars <= 1
   | PEquation d u => forall x, In x u -> In x d
   | PNodeApply ns us => forall o v, In (o, v) us -> In o ns
   | PVerifyPath _ net p => Present net p
-  | PEdge net p | PInput net p | PUpdate net p | PNodeValue net p => Path3 net p
+  | PEdge net p | PInput net p | PUpdate net p => Path3 net p
+  | PNodeValue net p => NodeValueTarget net p
   | POutputs net outs => forall o, In o outs -> Path3 net o
   | POpGraph ops => ~ exists S, CyclicSet (map oname ops) (op_edges ops) S
   end.
 Definition path3b (net : network) (p : path) : bool := presentb net p && Nat.eqb (List.length p) 3.
+Definition node_value_targetb (net : network) (p : path) : bool :=
+  match p with
+  | [n; o; v] => if String.eqb n "all" then existsb (fun nd => path3b net [fst nd; o; v]) net else path3b net p
+  | _ => false
+  end.
 Definition wellformedb (p : probe) : bool :=
   match p with
   | PConfig c => supportedb c
+  | PMixed b s v _ e => supportedb (mixed_config b s v e)
   | PVname v => is_ok (check_vname v)
   | PVars vars => forallb (fun d => is_ok (check_vname (fst d))) vars && Nat.leb (count_outputs vars) 1
   | PEquation d u => forallb (fun x => mem x d) u
   | PNodeApply ns us => forallb (fun u => mem (fst u) ns) us
   | PVerifyPath _ net p => presentb net p
-  | PEdge net p | PInput net p | PUpdate net p | PNodeValue net p => path3b net p
+  | PEdge net p | PInput net p | PUpdate net p => path3b net p
+  | PNodeValue net p => node_value_targetb net p
   | POutputs net outs => forallb (path3b net) outs
   | POpGraph ops => match toposort (map oname ops) (op_edges ops) with Some _ => true | None => false end
   end.
@@ -423,26 +473,21 @@ Definition wfprobeb (p : probe) : bool :=
   | _ => true
   end.
 
-(* Guards: the classes of requests outside of which the code is known NOT to be loud (known findings) *)
-(* F3: no component of the path is an attribute name of the circuit object *)
+(* Guard: the class of requests outside of which the code is known NOT to be loud (known finding F3) *)
+(* no component of the path is an attribute name of the circuit object *)
 Definition guard_path_not_attr (p : probe) : bool :=
   match p with PVerifyPath attrs _ pa => forallb (fun k => negb (mem k attrs)) pa | _ => true end.
-(* F1: the requested outputs resolve all, or none of them does *)
-Definition guard_outputs_all_or_none (p : probe) : bool :=
-  match p with
-  | POutputs net outs => forallb (path3b net) outs || forallb (fun o => negb (path3b net o)) outs
-  | _ => true end.
-(* F2: the node addressed by a node-level value exists *)
-Definition guard_node_value_node_exists (p : probe) : bool :=
-  match p with
-  | PNodeValue net (n :: _) => match lookup n net with Some _ => true | None => false end
-  | _ => true end.
-Definition guard (p : probe) : bool :=
-  guard_path_not_attr p && guard_outputs_all_or_none p && guard_node_value_node_exists p.
+Definition guard (p : probe) : bool := guard_path_not_attr p.
 
 (* what the property demands of an observed outcome: a request that is not well-formed must not return quietly;
-   a warning is enough for an input / update addressed to a missing variable only *)
-Definition warn_suffices (p : probe) : bool := match p with PInput _ _ | PUpdate _ _ => true | _ => false end.
+   a warning is enough for an input / update_var addressed to a missing variable, and for a node-level value
+   addressed to a node that does not exist (an operator that does not exist on an existing node must raise) *)
+Definition warn_suffices (p : probe) : bool :=
+  match p with
+  | PInput _ _ | PUpdate _ _ => true
+  | PNodeValue net (n :: _) => match node_targets net n with [] => true | _ => false end
+  | _ => false
+  end.
 Definition meets_spec (p : probe) (observed : result) : bool :=
   match observed with
   | Ok => wellformedb p
